@@ -24,6 +24,20 @@ type Conv struct {
 	RawBody string `json:"raw_body,omitempty"`
 	Fault   string `json:"fault"` // "", directive, methoddirective, signature, conversion, marker, compile
 	Extra   string `json:"extra,omitempty"`
+	// Style of every goverter comment of this converter: "" = `// goverter:x`, "directive" = `//goverter:x`
+	// (the directive spelling, which go/ast's CommentGroup.Text drops), "tab" = `//\tgoverter:x`
+	Style string `json:"style,omitempty"`
+}
+
+// pre is the comment opener of a converter's goverter lines.
+func (c *Conv) pre() string {
+	switch c.Style {
+	case "directive":
+		return "//goverter:"
+	case "tab":
+		return "//\tgoverter:"
+	}
+	return "// goverter:"
 }
 
 type Project struct {
@@ -155,14 +169,14 @@ func (p *Project) Tree() scratch.Tree {
 			case "conversion":
 				sig = fmt.Sprintf("(source %s) OutBad", in)
 			case "marker":
-				b.WriteString("// goverter:converter\nconst Marked" + c.Name + " = 1\n\n")
+				b.WriteString(c.pre() + "converter\nconst Marked" + c.Name + " = 1\n\n")
 			case "compile":
 				b.WriteString("var _ Undefined" + c.Name + "\n\n")
 			}
 			if c.Vars {
-				b.WriteString("// goverter:variables\n")
+				b.WriteString(c.pre() + "variables\n")
 				for _, l := range lines {
-					b.WriteString("// goverter:" + l + "\n")
+					b.WriteString(c.pre() + l + "\n")
 				}
 				b.WriteString("var (\n")
 				if c.RawBody != "" {
@@ -170,13 +184,13 @@ func (p *Project) Tree() scratch.Tree {
 					continue
 				}
 				for _, l := range mlines {
-					b.WriteString("\t// goverter:" + l + "\n")
+					b.WriteString("\t" + c.pre() + l + "\n")
 				}
 				b.WriteString("\t" + c.Name + " func" + sig + "\n)\n\n")
 			} else {
-				b.WriteString("// goverter:converter\n")
+				b.WriteString(c.pre() + "converter\n")
 				for _, l := range lines {
-					b.WriteString("// goverter:" + l + "\n")
+					b.WriteString(c.pre() + l + "\n")
 				}
 				b.WriteString("type " + c.Name + " interface {\n")
 				if c.RawBody != "" {
@@ -184,7 +198,7 @@ func (p *Project) Tree() scratch.Tree {
 					continue
 				}
 				for _, l := range mlines {
-					b.WriteString("\t// goverter:" + l + "\n")
+					b.WriteString("\t" + c.pre() + l + "\n")
 				}
 				b.WriteString("\tConvert" + sig + "\n}\n\n")
 			}
